@@ -18,6 +18,7 @@ import SwcVerif.Model.AlgoRunDsu
 import SwcVerif.Model.AlgoRunTraverse
 import SwcVerif.Model.AlgoRunTravFront
 import SwcVerif.Model.AlgoRunVolume
+import SwcVerif.Model.AlgoRunVolFront
 import SwcVerif.Model.AlgoRunSort
 import SwcVerif.Model.AlgoRunSubtree
 import SwcVerif.Model.AlgoRunPopulation
@@ -79,6 +80,7 @@ def dispatch (op : String) (args : List String) : String :=
   | "gtrav" => AlgoRun.handleTrav args
   | "gtravfront" => AlgoRun.handleTravFront args
   | "gvoltree" => AlgoRun.handleVolTree args
+  | "gvolfront" => AlgoRun.handleVolFront args
   | "gsort" => AlgoRun.handleSort args
   | "gsubtopo" => AlgoRun.handleSubTopo args
   | "gsubtree" => AlgoRun.handleSubtree args
